@@ -15,6 +15,13 @@ from .trace import GRIDS, AX, SIZE_NAMES, installed, Env, concrete_sizes, real_n
 from .world import SymWorld, RealWorld, IDX_NAMES
 
 
+class NativeFailure(Exception):
+    """the real code raised while running a contract's scenario natively on valid inputs"""
+    def __init__(self, msg, sizes, seed):
+        super().__init__(msg)
+        self.sizes, self.seed = sizes, seed
+
+
 class Ob:
     """One contract clause on one (family of) real function(s).
 
@@ -31,6 +38,7 @@ class Ob:
     canary = False          # a deliberately false clause that must be refuted
     bounded_only = False    # outside the reach of the real-arithmetic model (IEEE special values): the clause is only
                             # evaluated natively on a stated scope; reported as a bounded stand-in, never as proved
+    decoy_run = True        # run the scenario once on decoy inputs first (history independence of the traced functions)
     uf_congruence = False   # send sin/exp/log/psi to the solver as uninterpreted functions (needed only where two
                             # syntactically different arguments must be recognised as equal)
     tol_scale = 1.0
@@ -124,7 +132,13 @@ def run_symbolic(ob, grid, timeout_ms=20000, max_leaves=3000):
             w = SymWorld(grid)
             # the trace itself may depend on size relations (e.g. `cell_value.size == 1`): split on those first, so
             # that every region of sizes gets one complete trace which all its index regions share
-            setup_leaves = explore(lambda: run_forked(lambda: ob.setup(w)), base=(), max_leaves=64)
+            def setup_with_history():
+                # history independence: the scenario is first run on decoy inputs (same mesh, other data); hidden state
+                # kept by the traced functions between calls would leak into the run the clauses are stated about
+                if getattr(ob, 'decoy_run', True):
+                    ob.setup(w.decoy())
+                return ob.setup(w)
+            setup_leaves = explore(lambda: run_forked(setup_with_history), base=(), max_leaves=64)
             worst = 'proved'
             for sconds, pathconds, S0 in [(sc, pc, S_) for sc, paths in setup_leaves for pc, S_ in paths]:
                 def leaf_fn(part, S0=S0, pathconds=pathconds):
@@ -208,6 +222,8 @@ def run_native(ob, grid, sizes, seed, partial=None, points=None):
     """evaluate the clause on the real code; -> list of failing (label, P, detail)"""
     w = RealWorld(grid, sizes, seed=seed, partial=partial)
     w.scale = ob.tol_scale
+    if getattr(ob, 'decoy_run', True):
+        ob.setup(w.decoy())
     S = ob.setup(w)
     bad = []
     pts = points if points is not None else ob.points(w)
@@ -258,7 +274,11 @@ def conformance(ob, grid, sizes, seed):
     nd = GRIDS[grid]['nd']
     wr = RealWorld(grid, sizes, seed=seed)
     wr.choice_rng = random.Random(seed)
-    Sr = ob.setup(wr)
+    try:
+        Sr = ob.setup(wr)
+    except Exception as e:      # noqa: BLE001
+        # the REAL code raises on this (valid) input: that is a finding about the code, not about the model
+        raise NativeFailure('%s: %s' % (type(e).__name__, e), list(sizes), seed)
     sizes3 = list(sizes) + [1] * (3 - len(sizes))
     env = Env(sizes3, wr.src.values)
 
